@@ -460,13 +460,27 @@ class SAbstractSet:
 class SGraph:
     """self.dep_graph (networkx DiGraph; A-NX)"""
 
+    def __init__(self, classes=False):
+        # classes: a neighbour is a _CellRange or a _Cell according to is_range_node (code that tests isinstance)
+        self.classes = classes
+
+    def _element(self):
+        if not self.classes:
+            return None
+
+        def element(interp, n):
+            if interp.ex.branch(ISRANGE(n)):
+                return heap_cell(interp, n, 'pycel.excelcompiler:_CellRange')
+            return heap_cell(interp, n)
+        return element
+
     def hm_getattr(self, interp, name, node):
         from .interp import Builtin
         interp.world.trusted.add('A-NX: networkx.DiGraph is a set of nodes and a set of edges: `n in g`, '
                                  'g.successors(n), g.predecessors(n), add_edge')
         if name == 'successors':
             return Builtin('successors', lambda i, a, k, n: SAbstractSet(
-                lambda m, _c=a[0].node: SUCC(_c, m), 'successors'))
+                lambda m, _c=a[0].node: SUCC(_c, m), 'successors', self._element()))
         if name == 'add_edge':
             def add_edge(i, a, k, n):
                 ex = i.ex
@@ -480,7 +494,7 @@ class SGraph:
             return Builtin(name, lambda i, a, k, n: sym.mk_int(z3.Int(i.ex.fresh_name('n_' + name))))
         if name == 'predecessors':
             return Builtin('predecessors', lambda i, a, k, n: SAbstractSet(
-                lambda m, _c=a[0].node: SUCC(m, _c), 'predecessors'))
+                lambda m, _c=a[0].node: SUCC(m, _c), 'predecessors', self._element()))
         raise Unsupported(f'dep_graph.{name}', node)
 
     def contains(self, interp, item):
